@@ -684,6 +684,37 @@ def check(cond, label, known=(), detail=None):
 ACTIVE_KNOWN = set()
 
 
+def check_all(items):
+    """items: [(cond, label, detail)].  One solver query for the conjunction; individual
+    queries only when it fails.  Returns True when all hold on the whole path."""
+    c = _ctx
+    items = list(items)
+    if c.mode == 'native' or len(items) <= 1:
+        ok = True
+        for cond, label, detail in items:
+            ok = check(cond, label, detail=detail) and ok
+        return ok
+    es = []
+    for cond, label, detail in items:
+        es.append(z3.BoolVal(cond) if isinstance(cond, bool) else _zb(cond))
+    conj = z3.simplify(z3.And(*es))
+    if z3.is_true(conj):
+        c.checks += len(items)
+        c.checks_trivial += len(items)
+        c.checks_unsat += len(items)
+        return True
+    r = c._check(z3.Not(conj))
+    if r == z3.unsat:
+        c.checks += len(items)
+        c.checks_unsat += len(items)
+        return True
+    ok = True
+    for cond, label, detail in items:
+        ok = check(cond, label, detail=detail) and ok
+    return ok
+
+
+
 def fail(label, known=(), detail=None):
     return check(False, label, known=known, detail=detail)
 
